@@ -9,7 +9,7 @@ typedef unsigned __int128 V_u128;
 typedef unsigned long V_limb;
 
 #define V_NMAX   (1L << 40)          /* limbs; DESIGN section 4 item 6 */
-#define V_ZMAX   (1L << 30)          /* limbs of an mpz/mpq/mpf block: _mp_alloc/_mp_size are int */
+#define V_ZMAX   ((1L << 30) - 1)        /* limbs of an mpz/mpq/mpf block: _mp_alloc/_mp_size are int */
 #define V_B      (((V_u128) 1) << 64)
 
 /* ghost position(s) chosen by the caller / harness before a call, and ghost carries */
